@@ -13,6 +13,10 @@
 //            observation: kinds whose getters report exactly the distinctive values again.
 //            Also logged (conformance only): unsplit XML parsed in SceAll / ScePublic / SceSensitive.
 //
+// The VALUE of a field is a dimension wherever the serializer can branch on it: one kind per value class in a slot
+// (every QXmpp::EncryptionMethod of the XEP-0380 marker via setEncryptionMethod / a custom namespace via
+// setEncryptionMethodNs, every message type, optional sub-fields left out: ...NoBy, ...Bare, ...NoTo, ...).
+//
 // `qxv sce --list=1` prints the kinds this driver knows (lib/props/C17.py compares with the spec's table).
 #include "fixture.h"
 #include "qxv.h"
@@ -142,7 +146,7 @@ const std::vector<Kind> &kinds()
         k.push_back(Kind { "legacyDelay", "stamp",
                            [](Msg &m, const QString &, quint64 seed) {
                                QDomDocument keep;
-                               auto el = parseMessageXml(QStringLiteral("<message><x xmlns='jabber:x:delay' stamp='%1'/></message>")
+                               auto el = parseMessageXml(QStringLiteral("<message type='chat'><x xmlns='jabber:x:delay' stamp='%1'/></message>")  // type: the class default, so only the stamp is set
                                                              .arg(stampFor(true, seed).toString(QStringLiteral("yyyyMMddThh:mm:ss"))),
                                                          keep);
                                m.parse(el);
@@ -152,6 +156,15 @@ const std::vector<Kind> &kinds()
         k.push_back(tokKind("from", "from", [](Msg &m, const QString &T) { m.setFrom(T + "@example.org/r"); }));
         k.push_back(tokKind("id", "id", [](Msg &m, const QString &T) { m.setId(T); }));
         k.push_back(tokKind("lang", "lang", [](Msg &m, const QString &T) { m.setLang(T); }));
+        k.push_back(flagKind("typeNormal", [](Msg &m) { m.setType(Msg::Normal); }));
+        k.push_back(flagKind("typeGroupchat", [](Msg &m) { m.setType(Msg::GroupChat); }));
+        k.push_back(flagKind("typeHeadline", [](Msg &m) { m.setType(Msg::Headline); }));
+        k.push_back(flagKind("typeError", [](Msg &m) { m.setType(Msg::Error); }));
+        for (auto &s : k) {
+            if (s.name.startsWith("type")) {
+                s.slot = "type";
+            }
+        }
         k.push_back(tokKind("error", "error", [](Msg &m, const QString &T) {
             m.setError(QXmppStanza::Error(QXmppStanza::Error::Cancel, QXmppStanza::Error::ServiceUnavailable, T));
         }));
@@ -171,20 +184,43 @@ const std::vector<Kind> &kinds()
         k.push_back(tokKind("stanzaId", "stanzaId", [](Msg &m, const QString &T) {
             m.setStanzaIds({ QXmppStanzaId { T, T + "-by.example.org" } });
         }));
+        k.push_back(tokKind("stanzaIdNoBy", "stanzaId", [](Msg &m, const QString &T) {
+            m.setStanzaIds({ QXmppStanzaId { T, QString() } });
+        }));
         k.push_back(tokKind("originId", "originId", [](Msg &m, const QString &T) { m.setOriginId(T); }));
         k.push_back(tokKind("mix", "mix", [](Msg &m, const QString &T) {
             m.setMixUserJid(T + "@example.org");
             m.setMixUserNick(T + "-nick");
         }));
-        k.push_back(tokKind("eme", "eme", [](Msg &m, const QString &T) {
-            m.setEncryptionMethodNs("urn:qxv:" + T);
+        k.push_back(tokKind("mixJidOnly", "mix", [](Msg &m, const QString &T) { m.setMixUserJid(T + "@example.org"); }));
+        k.push_back(tokKind("mixNickOnly", "mix", [](Msg &m, const QString &T) { m.setMixUserNick(T + "-nick"); }));
+        // XEP-0380: every value of QXmpp::EncryptionMethod (NoEncryption = not set)
+        k.push_back(tokKind("emeCustom", "eme", [](Msg &m, const QString &T) {
+            m.setEncryptionMethodNs("urn:qxv:" + T);  // encryptionMethod() == QXmpp::UnknownEncryption
             m.setEncryptionName(T + "-name");
         }));
+        const auto eme = [](const QString &name, QXmpp::EncryptionMethod method) {
+            Kind kd = flagKind(name, [method](Msg &m) { m.setEncryptionMethod(method); });
+            kd.slot = "eme";
+            return kd;
+        };
+        k.push_back(eme("emeOtr", QXmpp::Otr));
+        k.push_back(eme("emeLegacyOpenPgp", QXmpp::LegacyOpenPgp));
+        k.push_back(eme("emeOx", QXmpp::Ox));
+        k.push_back(eme("emeOmemo0", QXmpp::Omemo0));
+        k.push_back(eme("emeOmemo1", QXmpp::Omemo1));
+        k.push_back(eme("emeOmemo2", QXmpp::Omemo2));
         k.push_back(tokKind("subject", "subject", [](Msg &m, const QString &T) { m.setSubject(T); }));
         k.push_back(tokKind("body", "body", [](Msg &m, const QString &T) { m.setBody(T); }));
         k.push_back(tokKind("thread", "thread", [](Msg &m, const QString &T) {
             m.setThread(T);
             m.setParentThread(T + "-parent");
+        }));
+        k.push_back(tokKind("threadNoParent", "thread", [](Msg &m, const QString &T) { m.setThread(T); }));
+        k.push_back(tokKind("oobNoDesc", "oob", [](Msg &m, const QString &T) {
+            QXmppOutOfBandUrl u;
+            u.setUrl("https://example.org/" + T);
+            m.setOutOfBandUrls({ u });
         }));
         k.push_back(tokKind("oob", "oob", [](Msg &m, const QString &T) {
             QXmppOutOfBandUrl u;
@@ -213,6 +249,9 @@ const std::vector<Kind> &kinds()
             m.setMucInvitationJid(T + "@conference.example.org");
             m.setMucInvitationPassword(T + "-pw");
             m.setMucInvitationReason(T + "-reason");
+        }));
+        k.push_back(tokKind("mucInvitationBare", "mucInvitation", [](Msg &m, const QString &T) {
+            m.setMucInvitationJid(T + "@conference.example.org");
         }));
         k.push_back(Kind { "bob", "bob",
                            [](Msg &m, const QString &T, quint64) {
@@ -243,6 +282,10 @@ const std::vector<Kind> &kinds()
         k.push_back(marker("markerReceived", Msg::Received));
         k.push_back(marker("markerDisplayed", Msg::Displayed));
         k.push_back(marker("markerAcknowledged", Msg::Acknowledged));
+        k.push_back(tokKind("markerDisplayedNoThread", "marker", [](Msg &m, const QString &T) {
+            m.setMarker(Msg::Displayed);
+            m.setMarkerId(T);
+        }));
         using J = QXmppJingleMessageInitiationElement::Type;
         k.push_back(jmiKind("jmiPropose", J::Propose));
         k.push_back(jmiKind("jmiRinging", J::Ringing));
@@ -255,6 +298,8 @@ const std::vector<Kind> &kinds()
             m.setIsSpoiler(true);
             m.setSpoilerHint(T);
         }));
+        k.push_back(flagKind("spoilerBare", [](Msg &m) { m.setIsSpoiler(true); }));
+        k.back().slot = "spoiler";
         k.push_back(tokKind("mixInvitation", "mixInvitation", [](Msg &m, const QString &T) {
             QXmppMixInvitation i;
             i.setInviterJid(T + "-inviter@example.org");
@@ -302,6 +347,9 @@ const std::vector<Kind> &kinds()
         k.push_back(tokKind("reply", "reply", [](Msg &m, const QString &T) {
             m.setReply(QXmpp::Reply { T + "-to@example.org/r", T });
         }));
+        k.push_back(tokKind("replyNoTo", "reply", [](Msg &m, const QString &T) {
+            m.setReply(QXmpp::Reply { QString(), T });
+        }));
         using C = QXmppCallInviteElement::Type;
         k.push_back(callKind("callInvite", C::Invite));
         k.push_back(callKind("callRetract", C::Retract));
@@ -334,6 +382,7 @@ QString slotValue(const Msg &m, const QString &slot)
     if (slot == "from") return m.from();
     if (slot == "id") return m.id();
     if (slot == "lang") return m.lang();
+    if (slot == "type") return m.type() == Msg::Chat ? QString() : QString::number(int(m.type()));
     if (slot == "error") {
         auto e = m.errorOptional();
         return e ? QStringLiteral("%1|%2|%3").arg(int(e->type())).arg(int(e->condition())).arg(e->text()) : QString();
@@ -356,7 +405,11 @@ QString slotValue(const Msg &m, const QString &slot)
     }
     if (slot == "originId") return m.originId();
     if (slot == "mix") return m.mixUserJid().isEmpty() && m.mixUserNick().isEmpty() ? QString() : m.mixUserJid() + "|" + m.mixUserNick();
-    if (slot == "eme") return m.encryptionMethodNs().isEmpty() && m.encryptionName().isEmpty() ? QString() : m.encryptionMethodNs() + "|" + m.encryptionName();
+    if (slot == "eme") {
+        return m.encryptionMethodNs().isEmpty() && m.encryptionName().isEmpty()
+            ? QString()
+            : m.encryptionMethodNs() + "|" + m.encryptionName() + "|" + QString::number(int(m.encryptionMethod()));
+    }
     if (slot == "subject") return m.subject();
     if (slot == "body") return m.body();
     if (slot == "thread") return m.thread().isEmpty() && m.parentThread().isEmpty() ? QString() : m.thread() + "|" + m.parentThread();
@@ -541,7 +594,28 @@ QString classify(const QDomElement &el, bool publicPart)
     }
     for (const auto &r : rows) {
         if (tag == QLatin1String(r.tag) && ns == QLatin1String(r.ns)) {
-            return QString::fromLatin1(r.kind);
+            const auto kind = QString::fromLatin1(r.kind);
+            // value classes of one element
+            if (kind == "eme") {
+                static const QMap<QString, QString> methods {
+                    { "urn:xmpp:otr:0", "emeOtr" }, { "jabber:x:encrypted", "emeLegacyOpenPgp" }, { "urn:xmpp:openpgp:0", "emeOx" },
+                    { "eu.siacs.conversations.axolotl", "emeOmemo0" }, { "urn:xmpp:omemo:1", "emeOmemo1" }, { "urn:xmpp:omemo:2", "emeOmemo2" }
+                };
+                return methods.value(el.attribute("namespace"), QStringLiteral("emeCustom"));
+            }
+            if (kind == "stanzaId") return el.hasAttribute("by") ? kind : QStringLiteral("stanzaIdNoBy");
+            if (kind == "mix") {
+                // both children are always written, an unset one empty
+                const bool j = !el.firstChildElement("jid").text().isEmpty(), n = !el.firstChildElement("nick").text().isEmpty();
+                return j && n ? kind : (j ? QStringLiteral("mixJidOnly") : QStringLiteral("mixNickOnly"));
+            }
+            if (kind == "thread") return el.hasAttribute("parent") ? kind : QStringLiteral("threadNoParent");
+            if (kind == "oob") return el.firstChildElement("desc").isNull() ? QStringLiteral("oobNoDesc") : kind;
+            if (kind == "mucInvitation") return el.hasAttribute("password") || el.hasAttribute("reason") ? kind : QStringLiteral("mucInvitationBare");
+            if (kind == "markerDisplayed") return el.hasAttribute("thread") ? kind : QStringLiteral("markerDisplayedNoThread");
+            if (kind == "spoiler") return el.text().isEmpty() ? QStringLiteral("spoilerBare") : kind;
+            if (kind == "reply") return el.hasAttribute("to") ? kind : QStringLiteral("replyNoTo");
+            return kind;
         }
     }
     return "?" + tag + "|" + ns;
@@ -556,8 +630,14 @@ QStringList elementKinds(const QDomElement &parent, bool isMessage, bool publicP
         for (int i = 0; i < attrs.count(); i++) {
             auto a = attrs.item(i).toAttr();
             auto n = a.name();
-            if (n == "type") {
-                continue;  // always written, carries no distinctive value
+            if (n == "type") {  // always written; "chat" is the default and not a kind
+                const auto v = a.value();
+                if (v == "normal") r << "typeNormal";
+                else if (v == "groupchat") r << "typeGroupchat";
+                else if (v == "headline") r << "typeHeadline";
+                else if (v == "error") r << "typeError";
+                else if (v != "chat") r << "?@type=" + v;
+                continue;
             }
             if (n == "xml:lang" || n == "lang") {
                 r << "lang";
